@@ -34,7 +34,8 @@ var e1Rules = map[string]string{
 // buildSched compiles the E1 test binary against /repo's working tree.
 func buildSched(scratch string) (string, error) {
 	out := filepath.Join(scratch, "sched.test")
-	cmd := exec.Command("go1.26", "test", "-c", "-tags", "verif", "-o", out, "./sched")
+	args := append([]string{"test", "-c", "-tags", "verif"}, h.ModArgs()...)
+	cmd := exec.Command("go1.26", append(args, "-o", out, "./sched")...)
 	cmd.Dir = filepath.Join(h.VerifDir(), "harness")
 	cmd.Env = h.GoEnv()
 	b, err := cmd.CombinedOutput()
